@@ -201,7 +201,7 @@ def run(ctx, focus):
     if not ctx.violations or T:
         for top in ([1, 2, 3] if T else [1, 2]):
             tr = os.path.join(ctx.wd, "sl_m2_%d.ndjson" % top)
-            p = vlib.run_harness(["sl", "-out", tr, "-seed", vlib.seed() * 10 + top, "-n", 1500 if T else 200, "-top", top] + (["-big"] if top > 1 else []), timeout=1800)
+            p = vlib.run_harness(["sl", "-out", tr, "-seed", vlib.seed() * 10 + top, "-n", {1: 1200, 2: 700, 3: 500}[top] if T else 200, "-top", top] + (["-big"] if top > 1 else []), timeout=1800)
             validate(ctx, tr, json.loads(p.stdout.strip().splitlines()[-1]), "random gate schedules (top level %d)" % top, top)
             os.remove(tr)
         tr = os.path.join(ctx.wd, "sl_free.ndjson")
